@@ -346,7 +346,7 @@ package xixi_kv
 //@ func (*xixi_kv.DB).loadMergeFiles
 //@   io_effect
 //@   per_return
-//@   props C06 C07 C02
+//@   props C06 C07 C02 C03
 //@   unshared db
 //@   requires [k-adopt] K_adopt(db)
 //@   let D = db.options.DirPath
@@ -387,7 +387,7 @@ package xixi_kv
 //@   unshared db
 //@   requires [db] db.olderFiles != nil
 //@   ensures [foreign-errors] result1 == ErrDataDirectoryCorrupted || !engineErr(result1)
-//@   ensures [files] result1 == nil ==> (len(result0) == 0 ==> db.activeFile == old(db.activeFile)) && (len(result0) > 0 ==> db.activeFile != nil && fresh(db.activeFile) && INV_df(db.activeFile) && !db.activeFile.closed && db.activeFile.kind == datafile.DataFileSuffix && len(db.activeFile.bufferedWrites) == 0 && owned(db.activeFile.headerBuf) && fresh(db.activeFile.headerBuf)) && olderIds(db) && olderInv(db) && olderFlushed(db) && olderSep(db) && (db.activeFile != nil ==> db.activeFile.ID < 4294967294 && arr(db.activeFile.headerBuf) != arr(db.logRecordHeader))
+//@   ensures [files] result1 == nil ==> (len(result0) == 0 ==> db.activeFile == old(db.activeFile)) && (len(result0) > 0 ==> db.activeFile != nil && fresh(db.activeFile) && INV_df(db.activeFile) && !db.activeFile.closed && db.activeFile.kind == datafile.DataFileSuffix && len(db.activeFile.bufferedWrites) == 0 && owned(db.activeFile.headerBuf) && fresh(db.activeFile.headerBuf)) && (len(result0) == 0 ==> (forall id :: {indom(db.olderFiles, id)} !has(db.olderFiles, id))) && olderIds(db) && olderInv(db) && olderFlushed(db) && olderSep(db) && (db.activeFile != nil ==> db.activeFile.ID < 4294967294 && arr(db.activeFile.headerBuf) != arr(db.logRecordHeader))
 //@   ensures [opened-files-are-new] (forall id :: {db.olderFiles[id]} has(db.olderFiles, id) ==> db.olderFiles[id] != nil && fresh(db.olderFiles[id]) && db.olderFiles[id].ReadWriter != nil && fresh(db.olderFiles[id].ReadWriter)) && (db.activeFile == old(db.activeFile) || (db.activeFile != nil && fresh(db.activeFile) && db.activeFile.ReadWriter != nil && fresh(db.activeFile.ReadWriter)))
 //@   ensures [ids] result1 == nil ==> (forall i :: {result0[i]} 0 <= i && i < len(result0) ==> result0[i] == db.activeFile.ID || has(db.olderFiles, result0[i]))
 //@   ensures [merge-dir-untouched] forall p :: {fs[p]} fnameDir(p) != db.options.DirPath ==> fs[p] == old(fs)[p]
@@ -400,6 +400,7 @@ package xixi_kv
 //@   requires [db] INV_index(db.index) && ACC(db) && db.totalSize == 0
 //@   ensures [foreign-errors] !engineErr(result1)
 //@   assume  [hint-keys-are-distinct-and-counters-do-not-overflow] result1 == nil ==> ACC(db) && db.totalSize <= 4611686018427387904 && db.reclaimSize == 0
+//@   assume  [hint-positions-name-adopted-files] result1 == nil ==> (forall k :: {db.index.model[k]} db.index.model[k] != 0 ==> as("*datafile.DataPos", db.index.model[k]).Offset < 32768 && (has(db.olderFiles, as("*datafile.DataPos", db.index.model[k]).Fid) || (db.activeFile != nil && as("*datafile.DataPos", db.index.model[k]).Fid == db.activeFile.ID)))
 //@   modifies db.totalSize, db.index.model, db.index.count, db.index.live
 //@   loop 1
 //@     invariant [reader] INV_reader(reader) && reader.dataFile.kind == datafile.HintFileSuffix && INV_index(db.index) && reader.dataFile == hintFile
@@ -414,6 +415,9 @@ package xixi_kv
 //@   ensures [rejected-error] called("(*flock.Flock).TryLock") && !result_of("(*flock.Flock).TryLock", 0) && result_of("(*flock.Flock).TryLock", 1) == nil ==> result1 == ErrDatabaseIsUsing && result0 == nil
 //@   ensures [rejected-open-is-inert] called("(*flock.Flock).TryLock") && !result_of("(*flock.Flock).TryLock", 0) ==> io_calls() == 2
 //@   ensures [err-no-db] result1 != nil ==> result0 == nil
+// base case of every induction over operation sequences: a successful Open hands out a database that satisfies
+// the representation invariant, exact accounting, resolvable positions, and holds no lock
+//@   ensures [opens-in-the-invariant] result1 == nil ==> INV_db(result0) && ACC(result0) && posOK(result0) && result0.mu != nil && !result0.mu.heldW && !result0.mu.heldR && len(result0.activeFile.bufferedWrites) == 0
 //@   at (*xixi_kv.DB).loadMergeFiles assert [adoption-under-the-directory-lock] result_of("flock.New").held
 //@   at (*xixi_kv.DB).loadDataFiles assert [load-under-the-directory-lock] result_of("flock.New").held && called("(*xixi_kv.DB).loadMergeFiles")
 //@   at (*xixi_kv.DB).loadIndexFromDataFiles assert [scan-after-hint] result_of("flock.New").held
@@ -438,7 +442,9 @@ package xixi_kv
 //@   requires [db]  db != nil && INV_index(db.index) && pos != nil
 //@   requires [no-overflow] db.totalSize <= 6917529027641081856 && db.reclaimSize <= 6917529027641081856
 //@   requires [acc] ACC(db)
+//@   requires [resolvable] posOK(db) && pos.Offset < 32768 && (pos.Fid == db.activeFile.ID || has(db.olderFiles, pos.Fid))
 //@   ensures [acc]  ACC(db)
+//@   ensures [resolvable] posOK(db)
 //@   ensures [tombstone-deletes] typ == datafile.LogRecordDeleted ==> db.index.model == store(old(db.index.model), keyid(key), 0)
 //@   ensures [record-puts]       typ != datafile.LogRecordDeleted ==> db.index.model == store(old(db.index.model), keyid(key), pos)
 //@   ensures [total] db.totalSize == old(db.totalSize) + pos.Size && db.reclaimSize >= old(db.reclaimSize) && db.reclaimSize <= old(db.reclaimSize) + 8589934592
@@ -448,11 +454,13 @@ package xixi_kv
 //@   props C02 C04 C17 C12 C16 C03
 //@   io_effect
 //@   unshared db
-//@   requires [db]    INV_index(db.index) && INV_files(db) && db.activeFile.ID < 4294967295
+//@   requires [db]    INV_index(db.index) && INV_files(db) && db.activeFile.ID < 4294967295 && len(db.activeFile.bufferedWrites) == 0
 //@   requires [ids]   forall i :: {fileIds[i]} 0 <= i && i < len(fileIds) ==> fileIds[i] == db.activeFile.ID || has(db.olderFiles, fileIds[i])
 //@   requires [acc]   ACC(db) && db.totalSize == 0 || (ACC(db) && db.totalSize <= 4611686018427387904 && db.reclaimSize <= 4611686018427387904)
+//@   requires [resolvable] posOK(db)
 //@   ensures [acc]    result == nil ==> ACC(db)
-//@   ensures [files]  result == nil ==> INV_files(db)
+//@   ensures [resolvable] result == nil ==> posOK(db)
+//@   ensures [files]  result == nil ==> INV_files(db) && len(db.activeFile.bufferedWrites) == 0
 //@   ensures [files-kept-or-rotated] (db.activeFile == old(db.activeFile) || (result == nil && fresh(db.activeFile) && fresh(db.activeFile.ReadWriter) && fresh(db.activeFile.headerBuf))) && (forall id :: {db.olderFiles[id]} has(db.olderFiles, id) ==> (old(has(db.olderFiles, id)) && db.olderFiles[id] == old(db.olderFiles[id])) || (id == old(db.activeFile.ID) && db.olderFiles[id] == old(db.activeFile)))
 //@   ensures [foreign-errors] !engineErr(result)
 //@   at (*xixi_kv.DB).loadIndexFromDataFiles$1 assert [applied-at-its-own-position] arg2 != nil
@@ -461,18 +469,18 @@ package xixi_kv
 //@   content
 //@   modifies db.totalSize, db.reclaimSize, db.index.model, db.index.count, db.index.live, db.activeFile, db.olderFiles[*], db.bytesWrite, db.activeFile.ReadWriter.durable
 //@   loop 1
-//@     invariant [acc] ACC(db) && INV_index(db.index) && db.activeFile == old(db.activeFile) && db.olderFiles == old(db.olderFiles) && transactionRecords != nil && fresh(transactionRecords)
-//@     invariant [pending] forall id, j :: {transactionRecords[id][j]} has(transactionRecords, id) && 0 <= j && j < len(transactionRecords[id]) ==> transactionRecords[id][j] != nil && transactionRecords[id][j].Record != nil && transactionRecords[id][j].Pos != nil && transactionRecords[id][j].Record.Type != datafile.LogRecordBatchFinished
+//@     invariant [acc] ACC(db) && posOK(db) && INV_index(db.index) && db.activeFile == old(db.activeFile) && db.olderFiles == old(db.olderFiles) && transactionRecords != nil && fresh(transactionRecords)
+//@     invariant [pending] forall id, j :: {transactionRecords[id][j]} has(transactionRecords, id) && 0 <= j && j < len(transactionRecords[id]) ==> transactionRecords[id][j] != nil && transactionRecords[id][j].Record != nil && transactionRecords[id][j].Pos != nil && transactionRecords[id][j].Record.Type != datafile.LogRecordBatchFinished && transactionRecords[id][j].Pos.Offset < 32768 && (transactionRecords[id][j].Pos.Fid == db.activeFile.ID || has(db.olderFiles, transactionRecords[id][j].Pos.Fid))
 //@     invariant [pending-own] forall id :: {transactionRecords[id]} has(transactionRecords, id) ==> arr(transactionRecords[id]) == 0 || fresh(transactionRecords[id])
 //@   loop 2
-//@     invariant [acc] ACC(db) && INV_index(db.index) && db.activeFile == old(db.activeFile) && db.olderFiles == old(db.olderFiles) && transactionRecords != nil && fresh(transactionRecords)
+//@     invariant [acc] ACC(db) && posOK(db) && INV_index(db.index) && db.activeFile == old(db.activeFile) && db.olderFiles == old(db.olderFiles) && transactionRecords != nil && fresh(transactionRecords)
 //@     invariant [reader] INV_reader(reader) && reader.dataFile.kind == datafile.DataFileSuffix && !reader.dataFile.closed
-//@     invariant [pending] forall id, j :: {transactionRecords[id][j]} has(transactionRecords, id) && 0 <= j && j < len(transactionRecords[id]) ==> transactionRecords[id][j] != nil && transactionRecords[id][j].Record != nil && transactionRecords[id][j].Pos != nil && transactionRecords[id][j].Record.Type != datafile.LogRecordBatchFinished
+//@     invariant [pending] forall id, j :: {transactionRecords[id][j]} has(transactionRecords, id) && 0 <= j && j < len(transactionRecords[id]) ==> transactionRecords[id][j] != nil && transactionRecords[id][j].Record != nil && transactionRecords[id][j].Pos != nil && transactionRecords[id][j].Record.Type != datafile.LogRecordBatchFinished && transactionRecords[id][j].Pos.Offset < 32768 && (transactionRecords[id][j].Pos.Fid == db.activeFile.ID || has(db.olderFiles, transactionRecords[id][j].Pos.Fid))
 //@     invariant [pending-own] forall id :: {transactionRecords[id]} has(transactionRecords, id) ==> arr(transactionRecords[id]) == 0 || fresh(transactionRecords[id])
 //@   loop 3
-//@     invariant [acc] ACC(db) && INV_index(db.index) && db.activeFile == old(db.activeFile) && db.olderFiles == old(db.olderFiles) && transactionRecords != nil && fresh(transactionRecords)
+//@     invariant [acc] ACC(db) && posOK(db) && INV_index(db.index) && db.activeFile == old(db.activeFile) && db.olderFiles == old(db.olderFiles) && transactionRecords != nil && fresh(transactionRecords)
 //@     invariant [reader] INV_reader(reader) && reader.dataFile.kind == datafile.DataFileSuffix && !reader.dataFile.closed
-//@     invariant [pending] forall id, j :: {transactionRecords[id][j]} has(transactionRecords, id) && 0 <= j && j < len(transactionRecords[id]) ==> transactionRecords[id][j] != nil && transactionRecords[id][j].Record != nil && transactionRecords[id][j].Pos != nil && transactionRecords[id][j].Record.Type != datafile.LogRecordBatchFinished
+//@     invariant [pending] forall id, j :: {transactionRecords[id][j]} has(transactionRecords, id) && 0 <= j && j < len(transactionRecords[id]) ==> transactionRecords[id][j] != nil && transactionRecords[id][j].Record != nil && transactionRecords[id][j].Pos != nil && transactionRecords[id][j].Record.Type != datafile.LogRecordBatchFinished && transactionRecords[id][j].Pos.Offset < 32768 && (transactionRecords[id][j].Pos.Fid == db.activeFile.ID || has(db.olderFiles, transactionRecords[id][j].Pos.Fid))
 //@     invariant [pending-own] forall id :: {transactionRecords[id]} has(transactionRecords, id) ==> arr(transactionRecords[id]) == 0 || fresh(transactionRecords[id])
 
 // ---------------------------------------------------------------------------------------------
@@ -498,7 +506,7 @@ package xixi_kv
 //@ pred mergeOutOlder(m, h) = forall id :: {m.olderFiles[id]} has(m.olderFiles, id) ==> fresh(m.olderFiles[id]) && fresh(m.olderFiles[id].ReadWriter) && m.olderFiles[id] != h && dyn(m.olderFiles[id].ReadWriter) != dyn(h.ReadWriter) && arr(m.olderFiles[id].headerBuf) != arr(h.headerBuf)
 
 //@ func (*xixi_kv.DB).Merge
-//@   props C06 C18 C04 C09 C07
+//@   props C06 C18 C04 C09 C07 C03
 //@   ownership
 //@   io_effect
 //@   per_return
